@@ -162,7 +162,7 @@ def model_exe():
 
 # ------------------------------------------------------------------------------------------------
 # running cases
-def run_impl(exe, text, timeout=1800):
+def run_impl(exe, text, timeout=600):
     r = run([exe], inp=text, timeout=timeout)
     return r.stdout, r.returncode, r.stderr
 
